@@ -1,4 +1,4 @@
 #!/bin/sh
 # confirm_queue.sh <parallel> <dir>... : run confirm_seed.py over the dirs, <parallel> at a time
 P=$1; shift
-printf '%s\n' "$@" | xargs -P "$P" -I{} sh -c '[ -f {}/confirm.json ] || /verif/tools/confirm_seed.py {} --jobs 6 > {}/confirm.log 2>&1; echo done {}'
+printf '%s\n' "$@" | xargs -P "$P" -I{} sh -c '[ -f {}/confirm.json ] || /verif/tools/confirm_seed.py {} --jobs 5 > {}/confirm.log 2>&1; echo done {}'
